@@ -326,7 +326,8 @@ func expiry(id string, seed uint64, c cfg, point string) runner.Result {
 	defer director.Install(nil)
 	nput := 1 + r.Intn(3)
 	nth := 1
-	if nput > 1 {
+	if nput > 1 && c.cap != 1 && c.kcap != 1 {
+		// (with a capacity of one every Put evicts its predecessor and stops its timer: only one callback ever runs)
 		nth += r.Intn(2)
 	}
 	park := d.ParkAt(point, m.p, nth)
